@@ -201,6 +201,20 @@ def find_witness(prop, seed, budget):
     kind = CONF["properties"][prop].get("witness_search")
     if not kind:
         return None, "no concrete search harness exists for this property"
+    if kind == ["rt_notified"]:
+        crate = os.path.join(HERE, "replay_rt")
+        b = subprocess.run(["cargo", "build", "--offline", "--quiet"], cwd=crate, capture_output=True, text=True,
+                           env=dict(os.environ, CARGO_NET_OFFLINE="true"))
+        if b.returncode != 0:
+            return None, "replay_rt does not build against the current tree: " + b.stderr[-600:]
+        exe_rt = os.path.join(BUILD, "replay-rt-target", "debug", "zlink-replay-rt")
+        depth = "6" if budget <= 200000 else "8"
+        for rtm in ("tokio", "smol"):
+            p = subprocess.run([exe_rt, "notified", rtm, depth], capture_output=True, text=True, timeout=600)
+            if p.returncode != 0:
+                return {"kind": "rt_bulk", "mode": "notified", "runtime": rtm,
+                        "output": (p.stdout[-1200:] + "\n" + "\n".join(p.stderr.splitlines()[:3]))}, ""
+        return None, f"every schedule of <= {depth} set / subscribe / poll operations (<= 3 subscribers) and the 4 one-shot scenarios behaved as the property says under both runtimes"
     if kind == ["rt_bulk"]:
         # real Unix socket pairs under both runtimes (replay_rt): a large pipelined flush must arrive intact
         crate = os.path.join(HERE, "replay_rt")
@@ -209,11 +223,13 @@ def find_witness(prop, seed, budget):
         if b.returncode != 0:
             return None, "replay_rt does not build against the current tree: " + b.stderr[-600:]
         exe_rt = os.path.join(BUILD, "replay-rt-target", "debug", "zlink-replay-rt")
-        for rtm in ("tokio", "smol"):
-            p = subprocess.run([exe_rt, "bulk", rtm], capture_output=True, text=True, timeout=600)
-            if p.returncode == 1:
-                return {"kind": "rt_bulk", "runtime": rtm, "output": p.stdout[-1500:]}, ""
-        return None, "the bulk transfer over real socket pairs arrived intact under both runtimes"
+        for mode in ("bulk", "atomic"):
+            for rtm in ("tokio", "smol"):
+                p = subprocess.run([exe_rt, mode, rtm], capture_output=True, text=True, timeout=600)
+                if p.returncode == 1:
+                    return {"kind": "rt_bulk", "mode": mode, "runtime": rtm, "output": p.stdout[-1500:]}, ""
+        return None, ("the bulk transfer and the abandoned sends of frames below the atomic-write size over real socket pairs "
+                      "arrived intact under both runtimes")
     exe, err = replay_bin()
     if not exe:
         return None, "replay crate does not build against the current tree: " + err[-800:]
@@ -400,6 +416,30 @@ def check_property(prop, tier, seed):
     lost = [a for ur in unit_results for a in ur["meta"].get("lost_aids", [])]
     coverage["lost_aids"] = lost
     rc = 0
+    crosscheck_hit = False
+    if tier == "thorough" and not violations and not undecided and pcfg.get("witness_search"):
+        # cross-check of what the contracts ASSUME (leaf stubs, on-paper composition): the search harnesses run the real
+        # code on generated inputs / schedules with a large budget although every obligation was discharged.  A failing
+        # input here refutes an assumption (or shows a defect outside the functions under contract) and is reported as a
+        # violation with that input as witness.  Bounded search: never counted as proved.
+        t_s = time.time()
+        try:
+            witness, why = find_witness(prop, seed, 2000000)
+        except Exception as e:
+            witness, why = None, f"search crashed: {e}"
+        coverage["thorough"]["search_crosscheck"] = {"harnesses": pcfg["witness_search"], "budget": 2000000, "wall_s": round(time.time() - t_s, 1),
+                                                     "result": "FAILING INPUT FOUND" if witness else why, "counts_as": "bounded search, not proof"}
+        if witness:
+            os.makedirs(os.path.join(HERE, "replays"), exist_ok=True)
+            path = os.path.join(HERE, "replays", f"{prop}-search-crosscheck.json")
+            json.dump({"property": prop, "obligation": "(all obligations discharged) search harness found a failing input on the real code",
+                       "function": None, "repo_site": None,
+                       "message": "an assumed contract (leaf stub / on-paper composition) is refuted by this input, or the defect lies outside the functions under contract",
+                       "verifier_output": "", "witness": witness, "no_witness_reason": None,
+                       "replay_cmd": f"python3 check.py replay {path}"}, open(path, "w"), indent=1)
+            log("every obligation is discharged, but the search harness found a failing input on the real code (an assumption is refuted)")
+            log(f"VIOLATION property={prop} replay={path}")
+            crosscheck_hit = True
     for kf, f in known_hits:
         log(f"KNOWN-FINDING: property={prop} obligation={f['obligation']} {kf['what']}")
     if violations:
@@ -447,7 +487,9 @@ def check_property(prop, tier, seed):
         for u in undecided[:10]:
             log(f"UNDECIDED property={prop}: {u[:1500]}")
         rc = 2
-    write_evidence(prop, tier, seed, level, coverage, sorted(set(assumptions))[:400], wall, len(violations))
+    if crosscheck_hit:
+        rc = 1
+    write_evidence(prop, tier, seed, level, coverage, sorted(set(assumptions))[:400], wall, len(violations) + (1 if crosscheck_hit else 0))
     if rc == 0:
         log(f"OK property={prop} obligations={obligations} discharged={discharged} wall={wall:.1f}s")
     return rc
@@ -465,7 +507,7 @@ def replay(path):
     if w.get("kind") == "rt_bulk":
         crate = os.path.join(HERE, "replay_rt")
         subprocess.run(["cargo", "build", "--offline", "--quiet"], cwd=crate, env=dict(os.environ, CARGO_NET_OFFLINE="true"))
-        return subprocess.call([os.path.join(BUILD, "replay-rt-target", "debug", "zlink-replay-rt"), "bulk", w.get("runtime", "tokio")])
+        return subprocess.call([os.path.join(BUILD, "replay-rt-target", "debug", "zlink-replay-rt"), w.get("mode", "bulk"), w.get("runtime", "tokio")])
     if w.get("kind") == "ser":
         exe = os.path.join(os.path.dirname(exe), "serdiff")
     return subprocess.call([exe, path])
